@@ -88,7 +88,17 @@ fn to_case() -> BoxedStrategy<Case> {
 
 macro_rules! to_int {
     ($t:ty, $d:expr) => {
-        catch(|| <$t>::try_from($d).map(|v| v.to_string()))
+        catch(|| {
+            // the path call, TryInto, and the trait by name: all three are the same conversion
+            let a = <$t>::try_from($d).map(|v| v.to_string());
+            let b: Result<$t, _> = TryInto::<$t>::try_into($d);
+            let c = <$t as TryFrom<Decimal>>::try_from($d).map(|v| v.to_string());
+            let b = b.map(|v| v.to_string());
+            if a != b || a != c {
+                panic!("entry points disagree: T::try_from = {:?}, d.try_into() = {:?}, <T as TryFrom<Decimal>>::try_from = {:?}", a, b, c);
+            }
+            a
+        })
     };
 }
 
@@ -184,6 +194,11 @@ impl Prop for C14 {
                         let i: $t = v.parse::<$t>().expect("value in type");
                         catch(|| {
                             let d = Decimal::from(i);
+                            let e: Decimal = i.into();
+                            let f = <Decimal as From<$t>>::from(i);
+                            if (d.coefficient(), d.n_frac_digits()) != (e.coefficient(), e.n_frac_digits()) || (d.coefficient(), d.n_frac_digits()) != (f.coefficient(), f.n_frac_digits()) {
+                                panic!("entry points disagree: Decimal::from(i) = {:?}, i.into() = {:?}, <Decimal as From<T>>::from(i) = {:?}", d, e, f);
+                            }
                             Ok::<(i128, u8), DecimalError>((d.coefficient(), d.n_frac_digits()))
                         })
                     }};
